@@ -221,6 +221,88 @@ func checkC14(c *Ctx) {
 	}
 	c.floor("O1 enter-protocol", nSenders, 2)
 
+	// ---- O1b nothing else blocks while counted in flight ---------------------------------------------
+	// Close spins until the in-flight count is zero: a function that raised the count may block only in
+	// the hand-over itself (send on the queue, alone or in a select with the done channel). Any other
+	// wait (a receive, a send on another channel, WaitGroup/Cond wait, sleep) inside such a function
+	// or its callees can keep the count raised for ever and hang Close.
+	var foreignWait func(fn *ssa.Function, depth int, seen map[*ssa.Function]bool) ssa.Instruction
+	foreignWait = func(fn *ssa.Function, depth int, seen map[*ssa.Function]bool) ssa.Instruction {
+		if fn == nil || fn.Blocks == nil || depth < 0 || seen[fn] {
+			return nil
+		}
+		seen[fn] = true
+		var bad ssa.Instruction
+		chanField := func(v ssa.Value) *types.Var {
+			f, _ := loadedField(canon(v))
+			if f == nil {
+				f, _ = loadedField(v)
+			}
+			return f
+		}
+		instrsOf(fn, func(in ssa.Instruction) {
+			if bad != nil {
+				return
+			}
+			switch x := in.(type) {
+			case *ssa.Send:
+				if chanField(x.Chan) != fMetCh {
+					bad = in
+				}
+			case *ssa.UnOp:
+				if x.Op == token.ARROW {
+					bad = in
+				}
+			case *ssa.Select:
+				if x.Blocking {
+					for _, st := range x.States {
+						if f := chanField(st.Chan); f != fMetCh && f != fDoneCh {
+							bad = in
+						}
+					}
+				}
+			case *ssa.Range:
+				if _, isCh := x.X.Type().Underlying().(*types.Chan); isCh {
+					bad = in
+				}
+			case ssa.CallInstruction:
+				if _, isGo := in.(*ssa.Go); isGo {
+					return
+				}
+				if pkg, typ, m := recvNamed(x); pkg == "sync" && (typ == "WaitGroup" || typ == "Cond") && m == "Wait" {
+					bad = in
+					return
+				}
+				if g := staticCallee(x); g != nil {
+					if g.Pkg != nil && g.Pkg.Pkg.Path() == "time" && g.Name() == "Sleep" {
+						bad = in
+						return
+					}
+					if c.inModule(g) {
+						if w := foreignWait(g, depth-1, seen); w != nil {
+							bad = w
+						}
+					}
+				}
+			}
+		})
+		return bad
+	}
+	nInFlight := 0
+	for _, fn := range c.funcsOfPkg(pk) {
+		if len(findInstrs(fn, isIncr)) == 0 {
+			continue
+		}
+		nInFlight++
+		key := c.fnKey(fn)
+		if w := foreignWait(fn, 3, map[*ssa.Function]bool{}); w != nil {
+			c.bad("O1 no-foreign-wait", key, w.Pos(), "a function that is counted in flight waits for something other than the hand-over to the queue: if that wait never ends (the peer already left, the batch was empty, the reporter is closing) the count stays raised and Close spins for ever", c.describe(w))
+		} else {
+			c.ok("O1 no-foreign-wait", key, fn.Pos(), "while counted in flight the function (and its callees) block only in the send on the queue / the select with the done channel")
+		}
+	}
+	c.floor("O1 no-foreign-wait", nInFlight, 2)
+
 	// ---- O2 close protocol --------------------------------------------------------------------
 	if len(closers) != 1 {
 		c.bad("O2 close-protocol", "m3.reporter.metCh/donech", token.NoPos, fmt.Sprintf("the queue / done channel are closed in %d functions (exactly one, Close, may do it)", len(closers)))
